@@ -299,7 +299,12 @@ func C16(p *core.Program, r *core.Report) {
 
 	// forgetting: convs.Delete in the ticker callback only under !successful && !retry
 	nDel := 0
-	for _, cb := range mh.AnonFuncs {
+	// the Range callbacks of the handler itself and of a helper method the ticker arm was extracted into
+	var tickerCbs []*ssa.Function
+	for _, f := range core.WithHelpers(mh, 12) {
+		tickerCbs = append(tickerCbs, f.AnonFuncs...)
+	}
+	for _, cb := range tickerCbs {
 		for _, d := range core.CallsTo(cb, "sync.Map.Delete") {
 			nDel++
 			conds := core.DominatingConds(d.Block())
